@@ -36,8 +36,32 @@ pub fn valid_file(k: i32) -> Vec<u8> {
     f
 }
 
-/// structurally well-formed version-2 files that do not describe a valid zone
+pub const INVALID_KINDS: u64 = 8;
+
+/// files that can be read but do not decode: structurally well-formed version-2 files that do not describe a valid
+/// zone (kinds 0-2), a valid file announcing version 4 / version 1 (3, 4), a wrong magic number (5), a valid file
+/// cut in the middle of its second block (6), a valid file followed by one more octet after the footer (7)
 pub fn invalid_file(kind: u8) -> Vec<u8> {
+    if kind >= 3 {
+        let mut f = valid_file(7200);
+        match kind {
+            3 => {
+                f[4] = b'4';
+            }
+            4 => {
+                f[4] = b'1';
+            }
+            5 => {
+                f[3] = b'g';
+            }
+            6 => {
+                let n = f.len();
+                f.truncate(n - 9);
+            }
+            _ => f.push(b'x'),
+        }
+        return f;
+    }
     let block = |wide: bool| -> Vec<u8> {
         let mut f = vec![];
         f.extend(b"TZif2");
@@ -321,7 +345,7 @@ pub fn run(ctx: &Ctx) -> Report {
                         1 => Entry::Valid(60 * (j as i32 + 1)),
                         2 => Entry::Garbage,
                         3 => Entry::Empty,
-                        _ => Entry::Invalid(((c / 5 + j as u64 + i) % 3) as u8),
+                        _ => Entry::Invalid(((c / 5 + j as u64 + i) % INVALID_KINDS) as u8),
                     };
                     c2 /= 5;
                     (p.clone(), e)
